@@ -8,7 +8,7 @@ from . import ftlib as F
 
 ID = "C01"
 CHECKER = "chk_named"
-THEOREMS = ['C01_dst_orthogonality', 'C01_G_to_F_is_bare_sum', 'C01_F_to_G_is_two_over_pi_sum', 'C01_roundtrip_rQr', 'C01_roundtrip_QrQ', 'C01_roundtrip_g_S_g', 'C01_roundtrip_S_g_S', 'C01_anchor_r_to_Q', 'C01_anchor_Q_to_r']
+THEOREMS = ['C01_dst_orthogonality', 'C01_G_to_F_is_bare_sum', 'C01_F_to_G_is_two_over_pi_sum', 'C01_roundtrip_rQr', 'C01_roundtrip_QrQ', 'C01_roundtrip_g_S_g', 'C01_roundtrip_S_g_S', 'C01_anchor_r_to_Q', 'C01_anchor_Q_to_r', 'C01_trapz_panel_error', 'C01_trapz_uniform_error', 'C01_G_to_F_converges', 'C01_F_to_G_converges', 'C01_member_hypotheses', 'C01_member_discretisation_error', 'C01_closed_form_member_converges']
 RULE = ("F_to_G / G_to_F / S_to_g / g_to_S on sine-transform-matched grids r_j = j dr, Q_k = k pi/(N dr), N = 1..200 (quick: ..60), data zero "
         "at both end points, plus unmatched grids for the correspondence; closed-form family A r exp(-a r^2) <-> A sqrt(pi) Q/(4 a^1.5) exp(-Q^2/4a) "
         "(single terms and sums) on three refinement levels; non-trivial = data not identically zero; distinct by input hash")
